@@ -381,6 +381,48 @@ func c16Scenario(depth, k, p int) mc.Scenario {
 						derive(s.Merge(fresh), nm)
 					}})
 				}
+				// several operands in one call; an operand without fields still contributes its tests and transforms
+				for j := range w.live {
+					j := j
+					for _, first := range []bool{true, false} {
+						first := first
+						ops = append(ops, op{fmt.Sprintf("Merge(#%d and a field-less schema with a failing test and a PostTransform; field-less first=%v)", j, first), func() {
+							rules := z.Struct(z.Schema{})
+							nm := m.clone()
+							o := w.models[j]
+							id := w.nextID*2 + 1
+							w.nextID++
+							log := w.log
+							rules.TestFunc(func(v any, ctx z.Ctx) bool {
+								*log = append(*log, fmt.Sprintf("t%d", id))
+								return false
+							}, z.IssueCode(fmt.Sprintf("t%d", id)))
+							pid := w.nextID
+							w.nextID++
+							rules.PostTransform(w.mkPost(pid))
+							addOther := func() {
+								for kk, v := range o.fields {
+									nm.fields[kk] = v
+								}
+								nm.tests = append(nm.tests, o.tests...)
+								nm.posts = append(nm.posts, o.posts...)
+							}
+							addRules := func() {
+								nm.tests = append(nm.tests, id)
+								nm.posts = append(nm.posts, pid)
+							}
+							if first {
+								addRules()
+								addOther()
+								derive(s.Merge(rules, w.live[j]), nm)
+							} else {
+								addOther()
+								addRules()
+								derive(s.Merge(w.live[j], rules), nm)
+							}
+						}})
+					}
+				}
 				if len(w.live) == 2 {
 					ops = append(ops, op{"Merge(#0,#1)", func() {
 						nm := m.clone()
@@ -457,7 +499,7 @@ func c16Depth(tier string) int {
 func init() {
 	Register(&Prop{
 		ID:    "C16",
-		Rule:  "one execution = one builder history: base Struct{a,b,c} with 0..3 tests and 0..2 PostTransforms appended one by one (capacities 0,1,2,4), then ≤depth events, each applied to any of ≤3 live schemas from {Pick(keys|map), Omit(keys|map), Extend(new field | overriding field | one shared three-field Schema value reused by every such call | nothing), Merge(other live schema | a fresh one-field schema with 0..1 tests and a PostTransform [, more]), Test, TestFunc, PostTransform}; after every event every live schema is probed (all fields valid; first field failing) on the real code and compared with the model's hand-built equivalent (tests run, their order, PostTransforms run, issues, destination). every history is non-trivial; distinct = distinct final model states of all live schemas",
+		Rule:  "one execution = one builder history: base Struct{a,b,c} with 0..3 tests and 0..2 PostTransforms appended one by one (capacities 0,1,2,4), then ≤depth events, each applied to any of ≤3 live schemas from {Pick(keys|map), Omit(keys|map), Extend(new field | overriding field | one shared three-field Schema value reused by every such call | nothing), Merge(other live schema | a fresh one-field schema with 0..1 tests and a PostTransform | two operands one of which has no fields but a failing test and a PostTransform, in either position [, more]), Test, TestFunc, PostTransform}; after every event every live schema is probed (all fields valid; first field failing) on the real code and compared with the model's hand-built equivalent (tests run, their order, PostTransforms run, issues, destination). every history is non-trivial; distinct = distinct final model states of all live schemas",
 		Floor: 50,
 		Bound: func(tier string) string { return fmt.Sprintf("all histories of depth ≤%d over ≤3 live schemas", c16Depth(tier)) },
 		Assumptions: []string{
